@@ -19,7 +19,7 @@ Prologues == {"ok", "short", "bad", "banner"}
 Requests == {"hello", "list", "get", "get_padded", "get_smuggle", "get_badpath", "put_new", "put_cas_c1", "put_badhash", "put_badpath", "put_dir_badhash", "delete_c2", "delete_badpath"}
 \* pieces that are not a well-framed request
 Breakers == {"oversize_2p20p1", "oversize_u32max", "undecodable", "unknown_variant", "zero_len", "deep_nesting", "huge_inner_len",
-             "eof_in_prefix", "eof_in_body", "put_content_eof", "bye"}
+             "eof_in_prefix", "eof_in_body", "put_content_eof", "put_len_beyond_eof", "bye"}
 Pieces == Requests \cup Breakers
 
 VARIABLES pro, sess, todo, st, f, conf, replies, exit
@@ -55,6 +55,9 @@ Frame == /\ st = "AwaitFrame"
                    [] x = "delete_c2" ->
                         IF f = "c2" THEN f' = "none" /\ Rep(<<"Delete", "deleted", "none">>) /\ UNCHANGED <<st, exit, conf>>
                         ELSE Rep(<<"Delete", "refused", f>>) /\ UNCHANGED <<st, exit, f, conf>>
+                   [] x = "put_len_beyond_eof" ->  \* declared length larger than the bytes that arrive before the input ends, declared hash = hash of
+                                                   \* those bytes: "streamed bytes do not match the declared length" - nothing may change (C10)
+                        Rep("Error:content length mismatch") /\ Close(0) /\ UNCHANGED <<f, conf>>
                    [] x = "put_content_eof" ->     \* the input ends inside the Put's content: the short read fails the hash test, the reply is sent, then clean EOF
                         Rep("Error:content hash mismatch") /\ Close(0) /\ UNCHANGED <<f, conf>>
                    [] x = "bye" -> Close(0) /\ UNCHANGED <<f, conf, replies>>
